@@ -36,6 +36,53 @@ def _starttoken(call):
     return kw(call, 'starttoken')
 
 
+def trace_skips(m, owner, fn, tok='token', tkz='tokenizer', registered=(), depth=0, chain=()):
+    """Every `self._tokensupto2(...)` call that the callback `fn` makes itself or through local helper
+    functions (defs nested in `owner` that are not registered callbacks) to which it hands its token.
+    Yields (call, name of the token in that function, name of the tokenizer, helper chain, function)."""
+    for c in ast.walk(fn):
+        if isinstance(c, ast.Call) and m.enclosing_def(c) is fn:
+            if call_name(c) == 'self._tokensupto2':
+                yield c, tok, tkz, chain, fn
+            elif isinstance(c.func, ast.Name) and depth < 4 and owner is not None:
+                helper = next((d for d in ast.walk(owner) if isinstance(d, ast.FunctionDef) and d.name == c.func.id and m.enclosing_def(d) is owner and d is not fn and id(d) not in registered), None)
+                if helper is None:
+                    continue
+                params = [a.arg for a in helper.args.args]
+                bind = {params[i]: text(a) for i, a in enumerate(c.args) if i < len(params)}
+                bind.update({k.arg: text(k.value) for k in c.keywords if k.arg})
+                inv = {v: k for k, v in bind.items()}
+                if tok not in inv:
+                    continue
+                yield from trace_skips(m, owner, helper, inv[tok], inv.get(tkz, tkz), registered, depth + 1, chain + (helper.name,))
+
+
+def consumes_on_all_paths(m, owner, fn, tok='token', tkz='tokenizer', registered=(), depth=0):
+    """Does every path of `fn` to a return pass a statement that consumes the construct - a
+    `_tokensupto2` call or a call of a local helper that is handed the token and consumes on all its
+    paths?  Returns (ok, offending path or [])."""
+    g = cfgmod.CFG(fn)
+    nodes = []
+    for n in g.nodes:
+        for c in cfgmod.calls_at(n):
+            if call_name(c) == 'self._tokensupto2':
+                nodes.append(n)
+            elif isinstance(c.func, ast.Name) and depth < 4 and owner is not None:
+                helper = next((d for d in ast.walk(owner) if isinstance(d, ast.FunctionDef) and d.name == c.func.id and m.enclosing_def(d) is owner and d is not fn and id(d) not in registered), None)
+                if helper is None:
+                    continue
+                params = [a.arg for a in helper.args.args]
+                bind = {params[i]: text(a) for i, a in enumerate(c.args) if i < len(params)}
+                bind.update({k.arg: text(k.value) for k in c.keywords if k.arg})
+                inv = {v: k for k, v in bind.items()}
+                if tok in inv and consumes_on_all_paths(m, owner, helper, inv[tok], inv.get(tkz, tkz), registered, depth + 1)[0]:
+                    nodes.append(n)
+    if not nodes:
+        return False, []
+    ok, path = g.all_paths_pass([ENTRY], lambda n: n in nodes, targets=[EXIT_RET])
+    return ok, path or []
+
+
 def r04a(chk, rid='R04.a'):
     chk.rule(rid, 'the token that triggers "skip the bad construct" is counted: every production callback that can be entered with a bracket-opening token (registered as default=, under CHAR or FUNCTION, or called from such a callback with its token) and discards input with _tokensupto2(tokenizer, ...) passes that token as starttoken')
     sites, cbs = callbacks(chk.repo)
@@ -59,38 +106,18 @@ def r04a(chk, rid='R04.a'):
     for tid, (cb, keys) in by_target.items():
         if not (keys & open_keys or tid in extra):
             continue
-        for call in _skip_calls(cb.target):
-            if chk.repo.mod(cb.rel).enclosing_def(call) is not cb.target:
+        m = chk.repo.mod(cb.rel)
+        owner = m.enclosing_def(cb.target)
+        registered = {id(c2.target) for c2 in cbs}
+        for call, tokname, tkzname, chain, where in trace_skips(m, owner, cb.target, registered=registered):
+            if not (call.args and text(call.args[0]) == tkzname):
                 continue
             n += 1
             st = _starttoken(call)
-            ok = st is not None and text(st) == 'token'
-            chk.ob(rid, cb.rel, cb.qual, text(call), ok,
+            ok = st is not None and text(st) == tokname
+            via = f' in helper {" -> ".join(chain)} (called with the token)' if chain else ''
+            chk.ob(rid, cb.rel, cb.qual, text(call) + via, ok,
                    'the offending token is not handed to the bracket counter: if it is "(", "[", "{" or a FUNCTION, its closing bracket drives the counter negative and the skip runs past the end of the construct')
-        # local helpers (not registered as callbacks themselves) that the callback hands its token to
-        m = chk.repo.mod(cb.rel)
-        owner = m.enclosing_def(cb.target)
-        if owner is None:
-            continue
-        registered = {id(c2.target) for c2 in cbs}
-        for c in ast.walk(cb.target):
-            if not (isinstance(c, ast.Call) and isinstance(c.func, ast.Name) and m.enclosing_def(c) is cb.target):
-                continue
-            helper = next((d for d in ast.walk(owner) if isinstance(d, ast.FunctionDef) and d.name == c.func.id and m.enclosing_def(d) is owner and id(d) not in registered), None)
-            if helper is None:
-                continue
-            params = [a.arg for a in helper.args.args]
-            bound = [params[i] for i, a in enumerate(c.args) if text(a) == 'token' and i < len(params)] + [k.arg for k in c.keywords if text(k.value) == 'token']
-            if not bound:
-                continue
-            for call in _skip_calls(helper):
-                if m.enclosing_def(call) is not helper:
-                    continue
-                n += 1
-                st = _starttoken(call)
-                ok = st is not None and text(st) == bound[0]
-                chk.ob(rid, cb.rel, cb.qual, f'{text(call)} in helper {helper.name} (called with the token)', ok,
-                       'the offending token is not handed to the bracket counter: if it is "(", "[", "{" or a FUNCTION, its closing bracket drives the counter negative and the skip runs past the end of the construct')
     if n < 3:
         raise AnalysisError(f'only {n} skipping callbacks found (3 confirmed by hand: two rule-set defaults and the declaration error handler)')
 
@@ -107,60 +134,32 @@ def r04b(chk, rid='R04.b'):
         for name in names:
             q = f'{owner}.{name}'
             fn = m.get(q)
-            g = cfgmod.CFG(fn)
-            slices = [n for n in g.nodes if any(call_name(c) == 'self._tokensupto2' for c in cfgmod.calls_at(n))]
-            # a local helper that is handed (tokenizer, token) and consumes the statement on all its paths
             ownerfn = m.get(owner)
-            for n in g.nodes:
-                for c in cfgmod.calls_at(n):
-                    if not isinstance(c.func, ast.Name):
-                        continue
-                    helper = next((d for d in ast.walk(ownerfn) if isinstance(d, ast.FunctionDef) and d.name == c.func.id and m.enclosing_def(d) is ownerfn and d is not fn), None)
-                    if helper is None:
-                        continue
-                    params = [a.arg for a in helper.args.args]
-                    bind = {params[i]: text(a) for i, a in enumerate(c.args) if i < len(params)}
-                    bind.update({k.arg: text(k.value) for k in c.keywords})
-                    inv = {v: k for k, v in bind.items()}
-                    if 'token' not in inv or 'tokenizer' not in inv:
-                        continue
-                    hg = cfgmod.CFG(helper)
-                    hs = [x for x in hg.nodes if any(call_name(cc) == 'self._tokensupto2' for cc in cfgmod.calls_at(x))]
-                    if not hs:
-                        continue
-                    okh, hpath = hg.all_paths_pass([ENTRY], lambda x: x in hs, targets=[EXIT_RET])
-                    chk.ob(rid, rel, q, f'helper {helper.name} consumes the statement on every path', okh, '' if okh else 'path that returns without consuming: ' + ' -> '.join(hpath[-4:]))
-                    for x in hs:
-                        for cc in cfgmod.calls_at(x):
-                            if call_name(cc) == 'self._tokensupto2':
-                                plain = len(cc.args) == 2 and text(cc.args[0]) == inv['tokenizer'] and text(cc.args[1]) == inv['token'] and not cc.keywords
-                                chk.ob(rid, rel, q, f'`{text(cc)}` in helper {helper.name} uses the default statement end (semicolon or the matching closing brace)', plain,
-                                       'another terminator lets a malformed statement with a block run on to the next ";" of the sheet')
-                    rule_param = next((k for k, v in bind.items() if v == 'rule'), None)
-                    for x in hg.nodes:
-                        for cc in cfgmod.calls_at(x):
-                            if call_name(cc) == 'self.insertRule' and cc.args and rule_param and text(cc.args[0]) == rule_param:
-                                guarded = _under_wellformed(m, helper, x.stmt, rule_param)
-                                chk.ob(rid, rel, q, f'`{text(cc)}` in helper {helper.name} only if {rule_param}.wellformed', guarded, 'a rule that failed to parse is inserted')
-                    if okh:
-                        slices.append(n)
-            if not slices:
+            skips = list(trace_skips(m, ownerfn, fn))
+            if not skips:
                 chk.ob(rid, rel, q, 'consumes the statement', False, 'no _tokensupto2(tokenizer, token) call: the tokens of the statement stay in the stream and are parsed as further statements')
                 continue
-            ok, path = g.all_paths_pass([ENTRY], lambda n: n in slices, targets=[EXIT_RET])
-            chk.ob(rid, rel, q, 'the statement is consumed on every path', ok, '' if ok else 'path that returns without consuming: ' + ' -> '.join(path[-4:]))
-            for s in slices:
-                for c in cfgmod.calls_at(s):
-                    if call_name(c) == 'self._tokensupto2' and m.enclosing_def(c) is fn:
-                        plain = len(c.args) == 2 and text(c.args[0]) == 'tokenizer' and text(c.args[1]) == 'token' and not c.keywords
-                        chk.ob(rid, rel, q, f'`{text(c)}` uses the default statement end (semicolon or the matching closing brace)', plain,
-                               'another terminator lets a malformed statement with a block run on to the next ";" of the sheet')
-            for n in g.nodes:
-                for c in cfgmod.calls_at(n):
-                    if call_name(c) == 'self.insertRule' and c.args and text(c.args[0]) == 'rule':
-                        guarded = _under_wellformed(m, fn, n.stmt)
-                        chk.ob(rid, rel, q, f'`{text(c)}` only if rule.wellformed', guarded, 'a rule that failed to parse is inserted')
-    chk.require(rid, 30, 'statement callback obligations')
+            ok, path = consumes_on_all_paths(m, ownerfn, fn)
+            chk.ob(rid, rel, q, 'the statement is consumed on every path (directly or through a local helper that is handed the token)', ok, '' if ok else 'path that returns without consuming: ' + ' -> '.join(path[-4:]))
+            for c, tokname, tkzname, chain, where in skips:
+                plain = len(c.args) == 2 and text(c.args[0]) == tkzname and text(c.args[1]) == tokname and not c.keywords
+                via = f' (in helper {" -> ".join(chain)})' if chain else ''
+                chk.ob(rid, rel, q, f'`{text(c)}`{via} uses the default statement end (semicolon or the matching closing brace)', plain,
+                       'another terminator lets a malformed statement with a block run on to the next ";" of the sheet')
+            # insertRule of the parsed rule only under <rule>.wellformed - in the callback and in the helpers it uses
+            scopes = {id(fn): fn}
+            for c, tokname, tkzname, chain, where in skips:
+                scopes[id(where)] = where
+            for d in ast.walk(ownerfn):
+                if isinstance(d, ast.FunctionDef) and m.enclosing_def(d) is ownerfn and any(isinstance(c, ast.Call) and isinstance(c.func, ast.Name) and c.func.id == d.name for c in ast.walk(fn)):
+                    scopes[id(d)] = d
+            for sc in scopes.values():
+                for c in ast.walk(sc):
+                    if isinstance(c, ast.Call) and call_name(c) == 'self.insertRule' and c.args and isinstance(c.args[0], ast.Name) and m.enclosing_def(c) is sc:
+                        var = c.args[0].id
+                        guarded = _under_wellformed(m, sc, m.enclosing_stmt(c), var)
+                        chk.ob(rid, rel, q, f'`{text(c)}`' + (f' (in helper {sc.name})' if sc is not fn else '') + f' only if {var}.wellformed', guarded, 'a rule that failed to parse is inserted')
+    chk.require(rid, 25, 'statement callback obligations')
 
 
 def _under_wellformed(m, fn, stmt, var='rule'):
